@@ -181,6 +181,8 @@ class USBDevice(object):
         return list(self.ports)
 
     def getSerialNumber(self):
+        if getattr(self, "serial_fails", False):
+            raise USBErrorNoDevice()        # e.g. the device was unplugged: every request fails, also the descriptor read
         return self.serial
 
     def open(self):
